@@ -17,7 +17,7 @@ func init() {
 		Level: "exploration",
 		Rule: "every element type x channel counts 1..8 x parent capacities 0..33 frames x windows starting at frame 0 and at later frames (with and without spare capacity) x call counts {0,1,cap-1,cap,cap+1,3*cap+7, 10^4}; after every AppendSample the window, a full-capacity alias taken beforehand, the parent and the whole storage are compared with the reference model " +
 			"(value at position Len, Len+1, Length=ceil(Len/C), capacity and base address unchanged, no other cell changed); distinct = distinct (type,C,K,window,call index) tuples; non-trivial = the buffer has capacity > 0; " +
-			"also: a sample refused before the buffer grew, windows cut after the parent was appended to, a window over nothing but the unwritten tail, the full buffer read out before the next append, one whole frame appended in bulk between two sample appends",
+			"also: a sample refused before the buffer grew, windows cut after the parent was appended to, every window also cut from a partly filled parent that received 1..3 single samples first (the window may reach beyond the parent's length), a window over nothing but the unwritten tail, the full buffer read out before the next append, one whole frame appended in bulk between two sample appends",
 		Assume: []string{"storage contents are re-read through the verif hook over the whole parent capacity"},
 		Plan:   func(tier string) []Batch { return split("appendsample", 8, 900) },
 		Run:    runC04,
@@ -50,6 +50,11 @@ func runC04(c *core.Ctx) {
 						continue
 					}
 					c04Case(c, t, ch, k, s, e, caseID, 0)
+					if k >= 2 {
+						// the same window cut from a parent that has spare capacity and
+						// was appended to sample by sample BEFORE the window was taken
+						c04Case(c, t, ch, k, s, e, caseID+"/parent-sample-appended-first", -5)
+					}
 				}
 			}
 		}
@@ -266,6 +271,16 @@ func c04CaseBody(c *core.Ctx, t *dyn.TypeOps, ch, k, s, e int, caseID string, fo
 		b = t.Alloc(signal.Allocator{Channels: ch, Length: max(k-2, 0), Capacity: k})
 		c.Obs("windows_taken_over_a_partial_last_frame_of_the_parent", 1)
 	}
+	pre := 0
+	if forceCalls == -5 {
+		// the parent is only partly filled and receives a few single samples
+		// before the window is cut (the window may reach beyond the parent's
+		// length, up to its capacity); the appends then go to the window
+		forceCalls = 0
+		pre = 1 + (ch+k+s)%3
+		b = t.Alloc(signal.Allocator{Channels: ch, Length: k / 3, Capacity: k})
+		c.Obs("windows_cut_from_a_partly_filled_parent_after_it_was_sample_appended", 1)
+	}
 	onRoot := forceCalls == -3 || ragged
 	if onRoot {
 		forceCalls = -1
@@ -306,6 +321,9 @@ func c04CaseBody(c *core.Ctx, t *dyn.TypeOps, ch, k, s, e int, caseID string, fo
 		b.AppendSample(w.NextStamp())
 	}
 	root := w.Adopt(b, "parent")
+	for j := 0; j < pre; j++ {
+		w.AppendSample(root, w.NextStamp())
+	}
 	if s < 0 {
 		// the window over nothing but the unwritten tail of the parent as it
 		// is now, up to its capacity
